@@ -20,7 +20,7 @@ import time
 import traceback
 
 VERIF = os.path.dirname(os.path.dirname(os.path.dirname(os.path.abspath(__file__))))
-LEAN = os.path.join(VERIF, "lean")
+LEAN = os.environ.get("VERIF_LEAN") or os.path.join(VERIF, "lean")  # VERIF_LEAN: private copy of the Lean project (mutant runs only)
 REPO = os.environ.get("VERIF_REPO", "/repo")
 EVIDENCE = os.path.join(VERIF, "evidence")
 REPLAYS = os.path.join(VERIF, "replays")
